@@ -471,7 +471,7 @@ def scenario_line(sc):
     req = ws.build_request()
     cfg = ['v=' + sc.variant, 'poll=%d' % sc.poll, 'prate=%d' % sc.prate, 'ptimeout=%d' % sc.ptimeout,
            'autopong=%d' % (1 if sc.autopong else 0), 'ctimeout=%d' % sc.ctimeout, 'conn=' + sc.conn,
-           'req=' + req.hex(), 'chal=' + sc.challenge().hex(),
+           'req=' + req.hex(),     # the expected accept value is not passed: the model computes it from the key in `req`
            'wfail=' + (','.join(str(k) for k in sorted(sc.wfail)) if sc.wfail else '-')]
     if bfinal_safe():
         cfg.append('zsafe=1')
